@@ -23,7 +23,7 @@ PROPS = {
     },
     "C07": {
         "lean": ["Stackage.Props.C07"],
-        "streams": [{"name": "paths", "quick": 3000, "thorough": 60000}, {"name": "condhist", "quick": 1500, "thorough": 30000}],
+        "streams": [{"name": "paths", "quick": 3000, "thorough": 60000}, {"name": "condhist", "quick": 1500, "thorough": 30000}, {"name": "freepol", "quick": 600, "thorough": 12000}],
         "rule": "random trees (depth <= 3 quick / 4 thorough, width <= 4; nested stacks as native / alias / alias-with-String / pointer, Conditions with stack and "
                 "non-stack expressions, nil slots, zero-valued Stack elements, per-node negative/forward index options) x 1-6 paths each of length 0..depth+2 with "
                 "indices from [-1,5] plus MinInt/MaxInt; the value (structurally described) and the flag compared; non-trivial = some path has >= 2 indices",
@@ -33,7 +33,8 @@ PROPS = {
     },
     "C08": {
         "lean": ["Stackage.Props.C08", "Stackage.Props.C08b"],
-        "streams": [{"name": "equnit", "quick": 1500, "thorough": 30000}, {"name": "histx", "quick": 3000, "thorough": 60000}, {"name": "awk", "quick": 2000, "thorough": 40000}],
+        "streams": [{"name": "equnit", "quick": 1500, "thorough": 30000}, {"name": "histx", "quick": 3000, "thorough": 60000}, {"name": "awk", "quick": 2000, "thorough": 40000},
+                    {"name": "revealtrees", "quick": 1500, "thorough": 30000}],
         "rule": "histories of the content mutators whose int arguments are drawn from {MinInt, MinInt+1, -Len-1..Len+1, MaxInt} on stacks of "
                 "length 0..4, all four index-option combinations, every kind; after each call Len/Index*/Front/Back/Cap/Avail are re-read; "
                 "non-trivial = at least 3 operations of at least 2 kinds; stream awk: Push / Insert / Replace / IsEqual / Transfer / ConvertStack / "
@@ -412,6 +413,12 @@ def projection(pid, stream):
     if pid == "C03" and stream == "sched":
         # "no sequence of calls ever makes Len exceed k", simultaneous calls included: the final length (and content) of the shared stack
         return lambda s: " ".join(st for st in s.split(" ; ") if st.startswith("F "))
+    if pid == "C07" and stream == "freepol":
+        # Traverse(i) is Index(i) also when asked from inside the stack's own PushPolicy (the lock is held then)
+        return lambda s: ("t" + s.split(" ")[0].split("t")[-1]) if s.startswith("free=z") else "-"
+    if pid == "C08" and stream == "revealtrees":
+        # Reveal returns normally (forward / negative index options, nested shapes of every kind included); what it does is C20's business
+        return lambda s: "PANIC" if ("PANIC" in s or "TIMEOUT" in s) else "returned"
     if pid == "C07" and stream == "condhist":
         # Traverse through a Condition into the Stack it holds, after every step of a setter history (accepted and refused assignments)
         return lambda s: " ; ".join(" ".join(t for t in st.split(" ") if t[:1] == "T") for st in s.split(" ; "))
